@@ -307,4 +307,17 @@ example : ∃ d tr, run 64 demoOps = .ok (d, tr) ∧ WF d ∧
   obtain ⟨d, tr, h1, h2, h3, _⟩ := run_refines 64 4096 demoOps (by decide) (by decide) demo_fits
   exact ⟨d, tr, h1, h2, by rw [h3]; decide⟩
 
+/-- the hypotheses of the step and reader theorems are met by concrete states: the fresh 64-byte store, and the store
+after the demo history (four keys, one doubling, a reopen) -/
+example : WF (freshStore 64) :=
+  ⟨[], _, freshStore_rep 64 (by decide), by intro b hb; simp [zeros] at hb; exact hb⟩
+
+example : Fits (freshStore 64) (.write ['k', 'e', 'y'] 1 2) := by unfold Fits; decide
+
+example : ∃ d, Inv d ∧ (abs d).length = 4 ∧ readAllValues d = .ok (abs d) ∧
+    (∃ d', init 64 (close d) = .ok (d', []) ∧ abs d' = abs d) := by
+  obtain ⟨d, tr, _, h2, h3, _⟩ := run_refines 64 4096 demoOps (by decide) (by decide) demo_fits
+  obtain ⟨d', hd', ha, _⟩ := reopen_preserves h2.inv 64
+  exact ⟨d, h2.inv, by rw [h3]; decide, read_all_eq_spec h2.inv, d', hd', ha⟩
+
 end PromVerif.Props.C10
